@@ -9,7 +9,7 @@ META = {
     "engine": "afc",
     "technique": "TLA+ spec BiArc (one action per atomic access of BiArc::try_clone/get_if_shared/drop) model-checked with TLC; edge-covering schedules of its state graph replayed on the real Lender/Loan under the yield-point scheduler with a tracking allocator as memory-safety oracle (spec->impl conformance)",
     "text": "TLC checks the two-handle arc (lender thread: lend x3, drop; two loan threads: get_mut, use, get_mut, use, drop; every interleaving) for: at most one live loan, exclusive use of the exclusive data, no access after the free, no access for a get_mut after drop(Lender) returned, freed at most once and not before both handles are gone, freed exactly once at the end; the spec mutant 'free when the old state was SHARED' must be rejected. Every transition of the state graph is executed on the real types: each path is a schedule of yield points (swap in try_clone, load in get_if_shared, swap and free in drop); payloads record their drop, freed blocks are poisoned and quarantined by the harness allocator. VIOLATION on: second live loan, concurrent exclusive use, access granted after revocation, touching or reading freed data, double free, leak / payload not dropped exactly once.",
-    "note": "Bounds: 1 lender thread with <=3 lend() calls, 2 loan threads with 2 get_mut() each; thorough adds 3 loan threads x 4 lends. Sequentially consistent interleavings only (DESIGN §9). Trusts the yield points in lender.rs and the allocator's quarantine (no reuse of a freed block during a schedule).",
+    "note": "Bounds: 1 lender thread with <=3 lend() calls, 2 loan threads with 2 get_mut() each; thorough adds 3 loan threads x 4 lends; additionally the AfcMem schedules (memory::State, 2 readers) with the allocator verdict. Sequentially consistent interleavings only (DESIGN §9). Trusts the yield points in lender.rs and the allocator's quarantine (no reuse of a freed block during a schedule).",
 }
 
 ACTIONS = ["lend", "ldrop", "lfree", "wait", "get", "use", "used", "drop", "free"]
@@ -45,6 +45,8 @@ def run(ctx):
         graphs[cfg] = {"constants": c, "states": info["states"], "transitions": info["transitions"],
                        "cover_paths": info["cover_paths"], "replayed": len(beh),
                        "steps_executed": sum(x.get("steps", 0) for x in res)}
+    # the same cell inside memory::State (Lender per channel, Loan per context): allocator verdict only
+    afc_util.mem_check(ctx, vh, "C44", validate=False)
     if ctx.nviol:
         # self-tests use the recorded results of this run; with violations present they prove nothing
         ctx.cov["selftests"] = ["skipped: the run found violations"]
